@@ -42,10 +42,11 @@ enum Op {
     SrvOtherPort,
     TxtOther,
     Idle1100,
+    VerifyShort,
 }
 /// Events of the focused cache-flush part: a flushing record moves the expiry of its older siblings
 /// to one second from now, which is time-driven work the daemon must wake itself for.
-const FLUSH_OPS: [Op; 7] = [Op::HostTwoAddrs, Op::HostOnlyX, Op::HostOnlyY, Op::Idle1100, Op::SrvOtherPort, Op::TxtOther, Op::Announce10];
+const FLUSH_OPS: [Op; 8] = [Op::HostTwoAddrs, Op::HostOnlyX, Op::HostOnlyY, Op::Idle1100, Op::VerifyShort, Op::SrvOtherPort, Op::TxtOther, Op::Announce10];
 const OPS: [Op; 23] = [
     Op::Register,
     Op::PeerProbeWins,
@@ -194,6 +195,11 @@ fn exec(seq: &[Op], dense: bool, horizon_ms: u64, trace: bool) -> Exec {
             Op::Idle100 => adv(&mut w, 100),
             Op::Idle1s => adv(&mut w, 1000),
             Op::Idle1100 => adv(&mut w, 1100),
+            Op::VerifyShort => {
+                // a deadline closer than the one-second resend of the verify query
+                w.ds[0].h.verify(i.fullname(), Duration::from_millis(400)).unwrap();
+                w.poke(0);
+            }
             Op::HostTwoAddrs => {
                 w.deliver(0, IF0, PEER0, build(&response(vec![a(&n("h.local"), [10, 0, 0, 9], 120), a(&n("h.local"), [10, 0, 0, 10], 120)])));
             }
@@ -360,7 +366,7 @@ pub fn check(tier: &str) -> i32 {
     };
     rep.run_part(&long, Duration::from_secs(if thorough { 1800 } else { 40 }));
     // cache-flush histories under a live browse and a live host-name search
-    let (fops, fdepth, fhor): (usize, usize, u64) = if thorough { (7, 5, 6_000) } else { (4, 4, 3_000) };
+    let (fops, fdepth, fhor): (usize, usize, u64) = if thorough { (8, 5, 6_000) } else { (5, 3, 3_000) };
     let mut nf = 0u64;
     let mut b = 1u64;
     for _ in 0..=fdepth {
@@ -384,7 +390,7 @@ pub fn check(tier: &str) -> i32 {
     };
     let flush = FnPart {
         name: "flush-histories".into(),
-        rule: format!("a browse and a host-name search are running and the instance is resolved; then every sequence of <= {fdepth} events over the first {fops} of [host announces two addresses, only the first, only the second (each with the cache-flush bit), 1.1 s idle, SRV with another port, TXT with other data, full re-announcement], followed by {} s of silence; same comparison", fhor / 1000),
+        rule: format!("a browse and a host-name search are running and the instance is resolved; then every sequence of <= {fdepth} events over the first {fops} of [host announces two addresses, only the first, only the second (each with the cache-flush bit), 1.1 s idle, verify with a 400 ms timeout, SRV with another port, TXT with other data, full re-announcement], followed by {} s of silence; same comparison", fhor / 1000),
         n: nf,
         describe: Box::new(move |i| format!("{:?}", fseq(i))),
         run: Box::new(move |i, tr| run_case(&fseq(i), fhor, tr)),
